@@ -111,6 +111,23 @@ func f2gen(c *core.Ctx, g func() (*spg.Password, error), fallback, depth int, ke
 					return
 				}
 			}
+			if rws := rejectWords(n); len(rws) > 0 && idx <= 64 {
+				for _, k := range []int{2, 5, 17} {
+					v := append([]uint32{}, base[:i]...)
+					for j := 0; j < k; j++ {
+						v = append(v, rws[j%len(rws)])
+					}
+					v = append(v, base[i:]...)
+					got, t := runScript(g, v)
+					c.Count("executions", 1)
+					c.Count("f2_reject_runs", 1)
+					if !sameOut(got, ref0) || t.Words != len(base)+k {
+						c.Violation(key+" reject", fmt.Sprintf("draw %d (bound %d): %d rejected words before %#x changed the result: %q vs %q (words used %d, expected %d)", i, n, k, base[i], tokKey(ref0.Toks), tokKey(got.Toks), t.Words, len(base)+k),
+							map[string]interface{}{"recipe": lit, "words": v, "base_words": base})
+						return
+					}
+				}
+			}
 			for _, rw := range rejectWords(n) {
 				v := append(append(append([]uint32{}, base[:i]...), rw), base[i:]...)
 				got, t := runScript(g, v)
